@@ -46,9 +46,9 @@ def draw_policy(rng, P):
 def fixture_configs(tier):
     S = configs.SHIPPED
     if tier == 'quick':
-        lst = [('core_maths', 3), ('osc_maths', 3)]
+        lst = [('core_maths', 3), ('osc_maths', 3), ('core_maths', 1)]
     else:
-        lst = [('core_maths', 3), ('core_maths', 4), ('osc_maths', 3), ('base_e_maths', 3), ('ext_maths', 3), ('core_maths', 2)]
+        lst = [('core_maths', 3), ('core_maths', 4), ('osc_maths', 3), ('base_e_maths', 3), ('ext_maths', 3), ('core_maths', 2), ('core_maths', 1)]
     return [dict(runname=n, basis=None, compl=c, nfun=configs.nfun(S[n], c)) for n, c in lst]
 
 
